@@ -23,7 +23,7 @@ PROPS = {
             {"pkg": "interpreter", "name": "VH_C06_CheckSig", "skip_label_prefix": "assert:C08", "quick": {"params": {"S": 0, "ERA": 0, "HT": 0, "UNC": 1}}, "thorough": {"params": {"S": 1, "ERA": 1, "HT": 1, "UNC": 1}}},
             {"pkg": "interpreter", "name": "VH_C06_Encoding", "quick": {"params": {"S": 0, "ERA": 0, "TRAIL": 0, "SLN": 2}}, "thorough": {"params": {"S": 0, "ERA": 0, "TRAIL": 0, "SLN": 6}}},
             {"pkg": "interpreter", "name": "VH_C06_LowS", "quick": {"params": {"S": 0, "ERA": 0, "TRAIL": 0, "HT": 0}}, "thorough": {"params": {"S": 0, "ERA": 1, "TRAIL": 0, "HT": 2}}},
-            {"pkg": "interpreter", "name": "VH_C06_MultiSig", "quick": {"params": {"S": 0, "N": 2, "ERA": 0, "HT": 0, "TRAIL": 2}}, "thorough": {"params": {"S": 0, "N": 3, "ERA": 1, "HT": 0, "TRAIL": 2}}},
+            {"pkg": "interpreter", "name": "VH_C06_MultiSig", "quick": {"params": {"S": 0, "N": 2, "ERA": 0, "HT": 0, "TRAIL": 2}}, "thorough": {"params": {"S": 0, "N": 2, "ERA": 1, "HT": 1, "TRAIL": 2}}},
         ],
         "assumptions": [],
     },
@@ -153,14 +153,14 @@ PROPS = {
     },
     "C02": {
         "harnesses": [
-            {"pkg": "bt", "name": "VH_C02_Preimage", "quick": {"params": {"IN": 2, "OUT": 2, "S": 1}}, "thorough": {"params": {"IN": 3, "OUT": 3, "S": 1}}},
+            {"pkg": "bt", "name": "VH_C02_Preimage", "quick": {"params": {"IN": 2, "OUT": 2, "S": 1}}, "thorough": {"params": {"IN": 3, "OUT": 3, "S": 1, "SCBIG": 1}}},
         ],
         "validate_tests": [{"pkg": "bt", "run": "TestVerifRefValidate"}],
         "assumptions": [],
     },
     "C03": {
         "harnesses": [
-            {"pkg": "bt", "name": "VH_C03_Legacy", "quick": {"params": {"IN": 2, "OUT": 2, "S": 1}}, "thorough": {"params": {"IN": 3, "OUT": 3, "S": 1}}},
+            {"pkg": "bt", "name": "VH_C03_Legacy", "quick": {"params": {"IN": 2, "OUT": 2, "S": 1}}, "thorough": {"params": {"IN": 3, "OUT": 3, "S": 1, "SCBIG": 1}}},
         ],
         "validate_tests": [{"pkg": "bt", "run": "TestVerifRefValidate"}],
         "assumptions": [],
